@@ -396,6 +396,9 @@ func runC01(ctx *Ctx) error {
 	if ctx.Thorough() {
 		cases = 12000
 	}
+	if p := os.Getenv("VH_C01_PIN"); p != "" {
+		return c01WritePinned(ctx, p, 14)
+	}
 	// corpus: the inputs of the repaired defects come first (they must keep passing)
 	for i, cs := range c01Corpus() {
 		c01Check(ctx, i, cs)
@@ -416,6 +419,23 @@ func runC01(ctx *Ctx) error {
 	for k, cs := range spreadInterfaceCases() {
 		ctx.Rep.Count("stream:interface-spread (pinned)")
 		c01Check(ctx, 60000+k, cs)
+	}
+	for k, cs := range c01LoadPinned() {
+		cs.Pinned = true
+		ctx.Rep.Count("stream:pinned (inside an open finding's input class, answered correctly)")
+		if c01Trial(ctx, cs) {
+			again := 0
+			for t := 0; t < 3; t++ {
+				if c01Trial(ctx, cs) {
+					again++
+				}
+			}
+			if again < 3 {
+				ctx.Rep.Count("pinned: a failure did not reproduce in three further runs (not reported)")
+				continue
+			}
+		}
+		c01Check(ctx, 70000+k, cs)
 	}
 	nu := 8
 	if ctx.Thorough() {
@@ -492,6 +512,100 @@ func genStreamCase(r *hx.Rand, st coreStream) (coreCase, bool) {
 		return coreCase{}, false
 	}
 	return coreCase{Query: op.Query, Vars: op.Variables, OpName: op.OpName, Kind: "query", Features: op.Features, Fed: &fedDump{Spec: spec, Data: data}}, true
+}
+
+// ---------------------------------------------------------------------------------------------
+// pinned cases: operations INSIDE the input class of an open finding which the tree answers
+// correctly. An open finding excuses its failure modes on its whole input class; a pinned case is
+// excused nothing. corpus/C01/pinned.json is written by a maintenance run (VH_C01_PIN=<file>): each
+// candidate passed 30 fresh runs of the whole C01 oracle before it was kept. In a check run a
+// pinned case that fails is run three more times and reported only if it fails every time.
+
+// c01Trial runs the property oracle of c01Check (no model correspondence) on a scratch report.
+func c01Trial(ctx *Ctx, cs coreCase) (failed bool) {
+	tmp := *ctx
+	tmp.Driver = nil
+	tmp.Rep = hx.NewReport(ctx.Prop, ctx.Tier, ctx.Seed)
+	c01Check(&tmp, 0, cs)
+	return len(tmp.Rep.Failures) > 0
+}
+
+func c01PinnedPath() string {
+	dir := os.Getenv("VERIF_DIR")
+	if dir == "" {
+		dir = "."
+	}
+	return filepath.Join(dir, "corpus", "C01", "pinned.json")
+}
+
+func c01LoadPinned() []coreCase {
+	b, err := os.ReadFile(c01PinnedPath())
+	if err != nil {
+		return nil
+	}
+	var out []coreCase
+	if json.Unmarshal(b, &out) != nil {
+		return nil
+	}
+	return out
+}
+
+// c01WritePinned: maintenance action, never part of a check run.
+func c01WritePinned(ctx *Ctx, path string, perStream int) error {
+	var out []coreCase
+	for _, st := range coreStreams {
+		kept := 0
+		// most cases for the streams whose class is still an OPEN finding (the wide ones first)
+		perStream := map[string]int{"abstract": 5 * perStream, "directives": 2 * perStream, "alias-helpers": 2 * perStream, "alias-collide": 2 * perStream}[st.name]
+		if perStream == 0 {
+			perStream = 5
+		}
+		for try := 0; try < perStream*40 && kept < perStream; try++ {
+			cs, ok := genStreamCase(ctx.Rand.Fork(), st)
+			if !ok || len(cs.Query) > 600 {
+				continue
+			}
+			cf, err := buildCoreFedCase(cs)
+			if err != nil {
+				continue
+			}
+			doc, op, err := loadOp(cf.Merged.Schema, cs.Query, cs.OpName)
+			if err != nil {
+				continue
+			}
+			of, df := analyseOp(cf.Merged.Schema, doc, op), analyseData(cf.F.Data)
+			// outcomes of node(id:) roots depend on map iteration order (finding C13-node-root-scrub-order)
+			if of.NodeRoot || of.PlainNodeRoot || of.RootTypename {
+				continue
+			}
+			in := false
+			for _, c := range c01Classes {
+				if c.in(of, df, false) || c.in(of, df, true) {
+					in = true
+				}
+			}
+			if !in {
+				continue
+			}
+			good := true
+			for t := 0; t < 30 && good; t++ {
+				good = !c01Trial(ctx, cs)
+			}
+			if !good {
+				continue
+			}
+			cs.Pinned = true
+			cs.Features = append(cs.Features, "pinned:"+st.name)
+			out = append(out, cs)
+			kept++
+		}
+		fmt.Fprintf(os.Stderr, "pinned %d cases of stream %s\n", kept, st.name)
+	}
+	b, err := json.Marshal(out)
+	if err != nil {
+		return err
+	}
+	return os.WriteFile(path, b, 0o644)
 }
 
 // pinWitness writes the first witness of a class into corpus/<prop>/<class>.json when VERIF_PIN is
